@@ -174,6 +174,8 @@ func histWorker(req N) (resp N) {
 		"cancelled":  "n := bump()\npoke()\nfor { spin() }",
 		// deferred calls that defer again, 40 deep (completes), and 1000 deep ending in unbounded recursion (a Go panic
 		// the API recovers while the deferred calls are in progress)
+		// fails at top level while operands of the statement are pending (the items of a list literal)
+		"toperror": "n := bump()\npoke()\n[1, 2, 3, 4, 5, [][1]]",
 		"defernest":  "n := bump()\npoke()\nfunc dn(k) { defer func() { if k > 0 { dn(k - 1) } }()\n return k }\ndn(40)\nx := 0\nfor i := 0; i < 300; i++ { x += i }\nn * 1000 + x % 7",
 		"deferpanic": "n := bump()\npoke()\nfunc ovf(k) { return ovf(k + 1) }\nfunc dd(k) { defer func() { if k == 0 { ovf(0) } else { dd(k - 1) } }()\n return k }\ndd(1000)",
 		// a module of the default globals (no importer involved)
@@ -191,6 +193,7 @@ func histWorker(req N) (resp N) {
 		"func do_opoverflow() { n := bump(); poke(); func og(k) { return 1 + og(k + 1) }; return og(0) }\n" +
 		"func do_deeppanic() { n := bump(); poke(); func dp(k) { if k == 0 { return boom() }; return dp(k - 1) }; return dp(600) }\n" +
 		"func do_cancelled() { n := bump(); poke(); for { spin() } }\n" +
+		"func do_toperror() { n := bump(); poke(); return [1, 2, 3, 4, 5, [][1]] }\n" +
 		"func do_defernest() { n := bump(); poke(); func dn(k) { defer func() { if k > 0 { dn(k - 1) } }(); return k }; dn(40); x := 0; for i := 0; i < 300; i++ { x += i }; return n * 1000 + x % 7 }\n" +
 		"func do_deferpanic() { n := bump(); poke(); func ovf(k) { return ovf(k + 1) };func dd(k) { defer func() { if k == 0 { ovf(0) } else { dd(k - 1) } }(); return k }; return dd(1000) }\n" +
 		"func do_impmod() { n := bump(); poke(); import math; return n * 1000 + math.abs(-1) }\n"
@@ -216,7 +219,7 @@ func histWorker(req N) (resp N) {
 		return N{"k": "nolib", "msg": err.Error()}
 	}
 	fns := map[string]*object.Function{}
-	fnNames := []string{"normal", "error", "panic", "deeppanic", "overflow", "opoverflow", "cancelled", "impmod", "defernest", "deferpanic"}
+	fnNames := []string{"normal", "error", "panic", "deeppanic", "overflow", "opoverflow", "cancelled", "impmod", "defernest", "deferpanic", "toperror"}
 	for j := 1; j <= nMods; j++ {
 		fnNames = append(fnNames, fmt.Sprintf("imp%d", j))
 	}
